@@ -45,8 +45,15 @@ def run_dmrg(ctx, H, psi, two, nsweeps, numiter, tol_split, detail, label):
 
 def dmrg_case(ctx, idx, rng):
     two = bool(idx % 2)
-    src = str(rng.choice(['xxz', 'xxz1', 'bose3', 'ising', 'fermi', 'hermitian']))
-    if src == 'hermitian':
+    src = str(rng.choice(['xxz', 'xxz1', 'bose3', 'ising', 'fermi', 'hermitian', 'nn-pattern', 'nn-pattern']))
+    if src == 'nn-pattern':
+        # hand-built automaton-form MPO with site-dependent couplings (staggered A-B-A-B, impurity, period 3, blocks, random, uniform)
+        d = int(rng.choice([2, 3]))
+        L = int(rng.integers(2, 8 if d == 2 else 6))
+        qd = rng.integers(-1, 2, size=d) if rng.random() < 0.6 else np.zeros(d, dtype=int)
+        H, pat, _ = gen.nn_pattern_hamiltonian(rng, qd, L, cplx=bool(rng.random() < 0.5))
+        src = 'nn-' + pat
+    elif src == 'hermitian':
         d = int(rng.choice([2, 3]))
         L = int(rng.integers(2, 7 if d == 2 else 5))
         qd = rng.integers(-1, 2, size=d) if rng.random() < 0.6 else np.zeros(d, dtype=int)
